@@ -5,6 +5,20 @@ NOTES = ("All checks are contract-based deductive verification with pyvc (DESIGN
          "contract, failed validation of an assumed external contract). Known findings: /verif/known_findings.json.")
 
 CLAIMS = {
+    "C07": {
+        "text": ("Proof of the representation invariant 'every memoised at-instant view of a system is the view of its current parameter "
+                 "tree': get_parameters_at_instant returns the view of the current tree at the instant for any earlier reads and keeps "
+                 "the invariant; load_parameters and a reform's modify_parameters install the new tree and leave no memoised view of the "
+                 "old one (the memo is a symbolic map; a functools.lru_cache decorator, if present in the source, is modelled as a "
+                 "process-wide ghost memo, which is how the original defect was found and then repaired by a fix: commit); the traced "
+                 "view handed to formulas returns the same leaves, wraps the same sub-nodes and records each leaf read; _run_formula "
+                 "hands the formula a view of the system's current tree in both modes (shared with C01)."),
+        "note": ("What a view contains is C06's business. Element-wise reads through vector indexing (VectorialParameterNodeAtInstant and "
+                 "the as-of-date variant) work on numpy record arrays outside the array algebra and are NOT covered - listed as not "
+                 "decided, no stand-in counted. In-place edits of a tree after a read are not a documented route."),
+        "technique": "contract-based deductive verification (representation invariant over a symbolic memo, ghost state for lru_cache + SMT)",
+        "design_ref": "DESIGN.md section 4 C07",
+    },
     "C10": {
         "text": ("Proof over the numpy array algebra for any number of persons and groups and any membership map: sum and nb_persons "
                  "(with and without role) have one element per group of the simulation and add / count exactly the members of each "
